@@ -81,6 +81,7 @@ class Scheduler:
         self.hot_hits: dict[str, int] = {}
         self.main_sem = threading.Semaphore(0)
         self.deadlock = None
+        self.harness_error = None
         self.import_waits = 0
         self.capped = False
         self.aborted = False
@@ -165,7 +166,17 @@ class Scheduler:
         if event == "line" or event == "opcode":
             w = self._tls.worker
             if w.atomic == 0:
-                self.yield_point(w, frame)
+                try:
+                    self.yield_point(w, frame)
+                except _Abort:
+                    raise
+                except Exception as e:
+                    # an exception escaping a trace function is raised INSIDE the traced library code and would be judged
+                    # as the library's behaviour: record it as a harness error and end the run instead
+                    self.harness_error = f"{type(e).__name__}: {e}\n{traceback.format_exc()[-1200:]}"
+                    self.aborted = True
+                    self.main_sem.release()
+                    self._park()
         return self._local_trace
 
     # -- yield points ----------------------------------------------------------------------------
@@ -199,7 +210,8 @@ class Scheduler:
     def _switch(self, cur, nxt, fname, frame):
         self.switches.append([self.step, nxt.idx])
         if frame is not None:
-            self.switch_sites.append((cur.idx, nxt.idx, fname, frame.f_lineno - frame.f_code.co_firstlineno))
+            # (an 'opcode' event on an instruction without line information has f_lineno None)
+            self.switch_sites.append((cur.idx, nxt.idx, fname, (frame.f_lineno or frame.f_code.co_firstlineno) - frame.f_code.co_firstlineno))
         else:
             self.switch_sites.append((cur.idx, nxt.idx, fname, -1))
         self.current = nxt
